@@ -142,15 +142,6 @@ theorem applyRows_zero (L : List (List Rat)) (m : Nat) :
 
 /-! ### non-vacuity: a skew triangle (2-D) and the unit cube (3-D) -/
 
-/-- triangle (0,0),(2,0),(1,3): outward edge normals, edge midpoints, area 3 -/
-def triFaces : List Face :=
-  [⟨vecOf [0, -2], vecOf [1, 0]⟩, ⟨vecOf [3, 1], vecOf [3/2, 3/2]⟩, ⟨vecOf [-3, 1], vecOf [1/2, 3/2]⟩]
-
-def cubeFaces : List Face :=
-  [⟨vecOf [-1, 0, 0], vecOf [0, 1/2, 1/2]⟩, ⟨vecOf [1, 0, 0], vecOf [1, 1/2, 1/2]⟩,
-   ⟨vecOf [0, -1, 0], vecOf [1/2, 0, 1/2]⟩, ⟨vecOf [0, 1, 0], vecOf [1/2, 1, 1/2]⟩,
-   ⟨vecOf [0, 0, -1], vecOf [1/2, 1/2, 0]⟩, ⟨vecOf [0, 0, 1], vecOf [1/2, 1/2, 1]⟩]
-
 example : ClosedCell 2 triFaces 3 := (closedCellB_iff _ _ _).mp (by decide +kernel)
 example : ClosedCell 3 cubeFaces 1 := (closedCellB_iff _ _ _).mp (by decide +kernel)
 /-- a wrong volume is rejected: the hypothesis is not trivially true -/
